@@ -283,3 +283,8 @@ def meta(results, tier):
                             'A-SQL-iso: a transact block is atomic (C06)',
                             'liveness (every call is eventually let through) not decided'],
             'explanation': 'one arbitrary step of the throttle loop (loop contract) and each Averager method against a recorder cache'}
+
+
+def post_process(results, tier):
+    from contracts import c03 as _c03
+    return _c03.dependency_rename('C20', results)
